@@ -291,7 +291,7 @@ def run(ctx):
         return
     gr.sk = tk_to_sk(gr.d["tok"])
     rng = ctx.rng
-    n = 500 if ctx.quick else 5000
+    n = 500 if ctx.quick else 3000
     d = gr.d
     s_must, used_must = gen_sentences(gr, d["must"], rng, n)
     s_doc, used_doc = gen_sentences(gr, d["rules"], rng, n // 3)
